@@ -81,6 +81,10 @@ let handle (cf : cfg) (line : string) : string option =
                 else Some (json_run cf None (nat_of_int 50) (bytes_of_hex f)).j_doc in
       let o = mp_run cf flt (nat_of_int (int_of_string l)) (bytes_of_hex i) in
       Some (Printf.sprintf "%s %d %s" (code_name o.mp_err) (int_of_n o.mp_rd.m_reads) (dump o.mp_doc))
+  | [("JS" | "MS") as k; i] ->
+      let rs = (if k = "JS" then json_stream else mp_stream) cf (nat_of_int 10) (nat_of_int 40) N0 (bytes_of_hex i) in
+      Some (String.concat "" (List.map (fun r ->
+        Printf.sprintf "%s@%d:%s " (code_name r.c_err) (int_of_n r.c_pos) (dump r.c_doc)) rs))
   | ["MR"; i] ->
       let o = mp_run cf None (nat_of_int 50) (bytes_of_hex i) in
       Some (Printf.sprintf "%s %s" (code_name o.mp_err) (hex_of_bytes (mp_ser o.mp_doc)))
